@@ -46,7 +46,7 @@ def run(ctx):
     regs, common = table.regions(fn, sw[1])
     M = regs.get("Merge", set())
     L = regs.get("Lifecycle", set())
-    ctx.floor("action:Merge-region", len(M), 20, "blocks of the Merge arm")
+    ctx.floor("action:Merge-region", len(M), 5, "blocks of the Merge arm")
     ins = [bb for bb in M if fn["blocks"][bb]["t"][0] == "call" and (fn["blocks"][bb]["t"][1].get("n") or "").endswith("BTreeMap::insert")
            and nshow(peel_calls(expr_operand(fn, fn["blocks"][bb]["t"][2][0]))) == "arg1.merges"]
     ctx.floor("merge:insert", len(ins), 1, "merges.insert site")
@@ -131,7 +131,7 @@ def run(ctx):
 
     # lifecycle
     lw = [(bb, j) for bb in L for j, s in enumerate(fn["blocks"][bb]["s"]) if s[0] == "=" and rules.place_has_field(s[1], "state")]
-    ctx.floor("lifecycle:writes", len(lw), 3, "state writes in the Lifecycle arm")
+    ctx.floor("lifecycle:writes", len(lw), 1, "state writes in the Lifecycle arm")
     # all writes dominated by `valid == true`
     valid_edges = []
     for (b0, tb, lab, facts) in cfg.all_edge_facts(db, fn):
